@@ -230,3 +230,14 @@ def protected_owning_manager():
     sites = store_sites(["owning_manager"])
     bad = [x for x in sites if not (x[0] == "pymarkdown/plugin_manager/plugin_scan_context.py" and x[1] == "PluginScanContext.__init__")]
     return [{"name": "structural::C07::protected[owning_manager]", "ok": not bad and bool(sites), "info": protected_owning_manager.__doc__, "detail": f"sites {sites} unexpected {bad}"}]
+
+
+@check("C18", "C15")
+def protected_main_fields():
+    """PyMarkdownLint.__plugins/__presentation/__extensions/__properties/__string_to_scan are stored only in __init__"""
+    out = []
+    for fld in ("__plugins", "__presentation", "__extensions", "__properties", "__string_to_scan"):
+        sites = [x for x in store_sites([fld]) if x[0] == "pymarkdown/main.py"]
+        bad = [x for x in sites if x[1] != "PyMarkdownLint.__init__"]
+        out.append({"name": f"structural::C18::protected[PyMarkdownLint.{fld}]", "ok": not bad and bool(sites), "info": protected_main_fields.__doc__, "detail": f"sites {sites} unexpected {bad}"})
+    return out
